@@ -127,6 +127,15 @@ func (g *Gen) coef() *big.Int {
 			r.SetString(g.digits(k), 10)
 			c.Add(c, r)
 		}
+	case 9: // multiples of a high power of two: scaled by 10^e (= 5^e * 2^e)
+		// the product is a multiple of 2^128 or 2^64, i.e. wraps to zero or to
+		// something small in fixed-width arithmetic
+		j := uint(g.R.Range(40, 113))
+		m := int64(1)
+		if room := 112 - int(j); room > 0 {
+			m = 1 + int64(g.R.U64()>>1)%(int64(1)<<uint(min(room, 20)))
+		}
+		c.Lsh(big.NewInt(m), j)
 	default:
 		c.SetString(g.digits(g.coefLen()), 10)
 	}
@@ -317,6 +326,7 @@ func (g *Gen) ValidLiteral(scan bool, underscores bool) string {
 		b.WriteByte("+-"[g.R.N(2)])
 	}
 	us := underscores && g.R.P(1, 4)
+	dotted := false
 	switch g.R.N(9) {
 	case 0: // exact tie or near-tie at the 34/35 digit boundary
 		l := g.R.Range(33, 35)
@@ -345,10 +355,31 @@ func (g *Gen) ValidLiteral(scan bool, underscores bool) string {
 		case 2:
 			c.Add(c, big.NewInt(int64(g.R.N(1000))))
 		}
-		b.WriteString(c.String())
+		ds := c.String()
 		if g.R.P(1, 2) {
-			b.WriteString(g.litDigits(g.R.N(6), false))
+			ds += g.litDigits(g.R.N(12), false)
 		}
+		// the point and digit separators at any position of the expansion
+		// (block-wise accumulation restarts after them, so the block that
+		// crosses the word boundary can be any of them)
+		if len(ds) > 2 && g.R.P(1, 2) {
+			if underscores && g.R.P(1, 2) {
+				for k := g.R.Range(1, 3); k > 0; k-- {
+					i := g.R.Range(1, len(ds)-1)
+					if ds[i-1] != '_' && ds[i] != '_' && ds[i-1] != '.' && ds[i] != '.' {
+						ds = ds[:i] + "_" + ds[i:]
+					}
+				}
+			}
+			if g.R.P(2, 3) {
+				i := g.R.Range(1, len(ds)-1)
+				if ds[i-1] != '_' && ds[i] != '_' {
+					ds = ds[:i] + "." + ds[i:]
+					dotted = true
+				}
+			}
+		}
+		b.WriteString(ds)
 	case 2: // coefficient around CMax
 		c := new(big.Int).Add(ref.CMax, big.NewInt(int64(g.R.Range(-3, 3))))
 		b.WriteString(c.String())
@@ -360,7 +391,7 @@ func (g *Gen) ValidLiteral(scan bool, underscores bool) string {
 	default:
 		b.WriteString(g.litDigits(g.litLen(), us))
 	}
-	if g.R.P(1, 2) {
+	if !dotted && g.R.P(1, 2) {
 		b.WriteByte('.')
 		n := g.litLen()
 		if g.R.P(1, 6) {
@@ -412,6 +443,9 @@ func (g *Gen) InvalidLiteral(scanAlphabetOnly bool) string {
 				}
 			}
 			s = string(b)
+			if !scanAlphabetOnly && g.R.P(1, 3) {
+				s = g.ByteRun()
+			}
 		case 5: // duplicate a character
 			v := g.ValidLiteral(true, true)
 			i := g.R.N(len(v))
@@ -436,6 +470,61 @@ func (g *Gen) InvalidLiteral(scanAlphabetOnly bool) string {
 		}
 	}
 	return "1__0"
+}
+
+// ByteRun returns a byte string that is mostly one long run of bytes of one
+// class (UTF-8 continuation bytes, lead bytes without continuation, 0xFF,
+// NUL, spaces, signs, dots, one repeated letter): what a scan for a rune
+// boundary, a delimiter or the end of a token walks over. Lengths cluster
+// around the sizes at which such code abbreviates, chunks or gives up.
+func (g *Gen) ByteRun() string {
+	lens := []int{1, 7, 8, 9, 15, 16, 17, 31, 32, 33, 63, 64, 65, 66, 127, 128, 129, 255, 256, 257, 300, 1000}
+	n := lens[g.R.N(len(lens))]
+	if g.R.P(1, 4) {
+		n = g.R.Range(1, 400)
+	}
+	var class []byte
+	switch g.R.N(9) {
+	case 0:
+		class = []byte{0x80, 0xbf, 0x9a, 0xa0}
+	case 1:
+		class = []byte{0xc2, 0xe2, 0xf0, 0xf4}
+	case 2:
+		class = []byte{0xff}
+	case 3:
+		class = []byte{0}
+	case 4:
+		class = []byte{' ', '\t', '\n'}
+	case 5:
+		class = []byte{'-', '+'}
+	case 6:
+		class = []byte{'.'}
+	case 7:
+		class = []byte{"eEnNiIaAfFxX_"[g.R.N(13)]}
+	default:
+		class = []byte{byte(g.R.N(256))}
+	}
+	b := make([]byte, n)
+	one := class[g.R.N(len(class))]
+	mixed := g.R.P(1, 3)
+	for i := range b {
+		b[i] = one
+		if mixed {
+			b[i] = class[g.R.N(len(class))]
+		}
+	}
+	s := string(b)
+	// sometimes a numeral in front of, behind or in the middle of the run
+	switch g.R.N(6) {
+	case 0:
+		s = g.digits(g.R.Range(1, 5)) + s
+	case 1:
+		s = s + g.digits(g.R.Range(1, 5))
+	case 2:
+		i := g.R.N(len(s) + 1)
+		s = s[:i] + g.digits(g.R.Range(1, 3)) + s[i:]
+	}
+	return s
 }
 
 // LookAlike returns a numeral in which one or two bytes were replaced by
@@ -611,6 +700,66 @@ func (g *Gen) Spec(verbs string, maxWP int) string {
 	}
 	b.WriteByte(verbs[g.R.N(len(verbs))])
 	return b.String()
+}
+
+// keptPrefix returns a Decimal together with a verb and a precision such that
+// the digits the precision keeps, read as an integer, sit at a binary word
+// boundary (2^32, 2^63, 2^64 ... minus one, plus or minus a little) and the
+// dropped tail is a tie, just above or below one, or arbitrary: what rounding
+// done in binary integer arithmetic (quotient, compare the remainder,
+// increment) sees as its carry out of a word. The value and the precision
+// have to be drawn together; independent draws meet with probability 2^-64.
+func (g *Gen) keptPrefix() (dec string, verb byte, prec int) {
+	base := new(big.Int).Lsh(big.NewInt(1), []uint{31, 32, 53, 63, 64, 64, 64, 96}[g.R.N(8)])
+	x := new(big.Int)
+	if g.R.P(2, 3) {
+		x.Sub(base, big.NewInt(int64(1+g.R.N(3)/2)))
+	} else {
+		x.Add(base, big.NewInt(int64(g.R.N(2))))
+	}
+	nd := ref.NumDigits(x)
+	k := g.R.Range(1, 34-nd)
+	var tail string
+	switch g.R.N(5) {
+	case 0:
+		tail = "5" + strings.Repeat("0", k-1)
+	case 1:
+		tail = "5" + strings.Repeat("0", k-1)
+		if k > 1 {
+			tail = tail[:k-1] + "1"
+		}
+	case 2:
+		tail = "4" + strings.Repeat("9", k-1)
+	case 3:
+		tail = strings.Repeat("9", k)
+	default:
+		tail = g.digits(k)
+		if len(tail) < k {
+			tail = strings.Repeat("0", k-len(tail)) + tail
+		}
+	}
+	c := new(big.Int)
+	c.SetString(x.String()+tail[:k], 10)
+	verb = "eEgGfF"[g.R.N(6)]
+	e := 0
+	switch verb {
+	case 'e', 'E':
+		prec = nd - 1
+		e = g.exp(c)
+	case 'g', 'G':
+		prec = nd
+		e = g.exp(c)
+	default:
+		prec = g.R.N(12)
+		e = -k - prec
+	}
+	if e < ref.MinExp {
+		e = ref.MinExp
+	}
+	if e > ref.MaxExp {
+		e = ref.MaxExp
+	}
+	return Hex(DecOf(ref.Num{Neg: g.R.P(1, 3), Coef: c, Exp: e})), verb, prec
 }
 
 // ---------- caller-owned objects ----------
